@@ -7,7 +7,7 @@ from .. import model as M
 from .. import primcheck as PC
 from ..core import Report
 from ..interp import Raised
-from .common import require_fresh_lookups, TRUSTED_WIRE, cfg_class, require_no_errors, wire_results
+from .common import aliasing_event, require_fresh_lookups, TRUSTED_WIRE, cfg_class, require_no_errors, wire_results
 
 META = {
     "level": "proof",
@@ -75,6 +75,12 @@ def run(rep: Report) -> None:
             if p.raised:
                 ok, detail = False, f"stepping raises {p.raised[0]}"
                 break
+            al = aliasing_event(p)
+            if al is not None:
+                ok, where = False, al[1]
+                detail = (f"{al[2]} - the flow recomputed later from the modified state differs from the flow "
+                          "used in the queue update: vehicles are not conserved")
+                break
             nz = M.make_normalizer(cfg, with_domain=False)
             env = E.Env(p.n1)
             sd = [pr for pr in p.prims if pr[0] == "LinksEngine.step_density" and pr[3]]
@@ -101,15 +107,16 @@ def run(rep: Report) -> None:
                 if sh != E.shape(rho, env):
                     ok, detail = False, f"q_up has shape {sh}, the densities {E.shape(rho, env)}"
                     break
-                if cfg.n1:
+                poss = E.positions(sh, env)
+                if poss == [None]:
                     q0 = nz.rf(E.at(q_up, None, env))
                 else:
-                    for pos in (("i", 0), ("last", 0)):
+                    for pos in poss[1:]:
                         lhs = nz.rf(E.at(q_up, pos, env))
                         rhs = nz.rf(E.at(q, (pos[0], pos[1] - 1), env))
                         if not lhs.equals(rhs):
                             ok, detail = False, f"q_up at {E._fpos(pos)} is not the flow of the segment just upstream"
-                    q0 = nz.rf(E.at(q_up, ("first", 0), env))
+                    q0 = nz.rf(E.at(q_up, poss[0], env))
             except E.ShapeError as ex:
                 ok, detail = False, f"shape error in the flow wiring: {ex}"
                 break
